@@ -162,7 +162,7 @@ def ctor_concrete(E, cfg):
     from quantity.money import ExchangeRate
     eur, usd, jpy = _curs()
     cases = ['identical', 'identical-code', 'unknown-code', 'wrong-type', 'zero', 'negative', 'tiny', 'str',
-             'float', 'str-bad', 'limit', 'below-limit', 'inf', 'nan', 'codes']
+             'float', 'str-bad', 'limit', 'below-limit', 'inf', 'nan', 'codes', 'float-ties', 'float-below-limit']
     case = E.choice('case', cases)
     if case == 'identical':
         C.expect_raises(E, lambda: ExchangeRate(eur, 1, eur, 1), ValueError, 'identical-currencies-rejected')
@@ -196,6 +196,19 @@ def ctor_concrete(E, cfg):
     elif case == 'below-limit':
         C.expect_raises(E, lambda: ExchangeRate(eur, 1, usd, Fraction(999999, 10 ** 12)), ValueError,
                         'below-limit-rejected')
+    elif case == 'float-ties':
+        # floats count with their exact binary value: the shortest decimal notation is a tie of the sixth decimal, the value
+        # itself lies beside it
+        from .c11 import _own_rate
+        f = E.choice('float', [1.0000015, 2.0000025, 1.0000005, 0.1000005, 16.3270005, 0.30000049999999997, 7.0000035])
+        r = ExchangeRate(eur, 1, usd, f)
+        E.check(r.rate == _own_rate(Fraction(f)), 'float-amount-by-exact-binary-value', key='ctor-float:exact-value',
+                info=[repr(f), str(r.rate)])
+        _normal_form(E, r, Fraction(f), 'ctor-float', ['float-ties'])
+    elif case == 'float-below-limit':
+        for f in (1e-6, 9.999999e-7):                 # the float 1e-6 is below 10^-6
+            if Fraction(f) < Fraction(1, 10 ** 6):
+                C.expect_raises(E, lambda: ExchangeRate(eur, 1, usd, f), ValueError, 'float-below-limit-rejected', [repr(f)])
     elif case == 'codes':
         r = ExchangeRate('EUR', '100', 'JPY', '16327')
         E.check(r.unit_currency is eur and r.term_currency is jpy, 'codes-resolved')
